@@ -46,7 +46,9 @@ def model_files(pid):
 
 def translator_list():
     lines = ["* Translators (trusted, fail-closed, run before every Coq build; output `coq/theories/Gen/*.v` is never committed;\n"
-             "  a construct outside a translator's grammar is an error naming the source line, reported by the check as a broken tie;\n"
+             "  a construct outside a translator's grammar is an error naming the source line, reported by the check as a broken tie - of exactly the\n"
+             "  properties whose `Props/Cxx.v` or case-file header imports, transitively, a `Gen_*` module that translator writes\n"
+             "  (`harness/common.py:translators_ok_for`; a translator may declare `PROPERTIES = [...]` instead);\n"
              "  theorems over the generated files are re-checked against what the source says now):\n"]
     for f in sorted(glob.glob(os.path.join(ROOT, "translators", "*.py"))):
         try:
